@@ -877,6 +877,66 @@ pub fn run(ctx: &mut Ctx, dom: &str, a: &[Arg]) {
                 modules(ctx, &g, &bi);
             }
         }
+        "tageq" => {
+            // `==` / `!=` between the first tags of each kind of two loaded boot informations
+            let g1 = Guarded::new(a[0].b(), 0, ctx.place_end);
+            let g2 = Guarded::new(a[1].b(), 0, ctx.place_end);
+            let l1 = guard(|| unsafe { BootInformation::load(g1.ptr.cast::<BootInformationHeader>()) });
+            let l2 = guard(|| unsafe { BootInformation::load(g2.ptr.cast::<BootInformationHeader>()) });
+            match (l1, l2) {
+                (Ok(Ok(b1)), Ok(Ok(b2))) => {
+                    macro_rules! eqk {
+                        ($label:expr, $T:ty) => {
+                            match (guard(|| b1.get_tag::<$T>()), guard(|| b2.get_tag::<$T>())) {
+                                (Ok(Some(x)), Ok(Some(y))) => {
+                                    let r = guard(|| (x == y, x != y));
+                                    ctx.ln(
+                                        "eq",
+                                        match r {
+                                            Ok((e, n)) => format!("{} VAL eq={} ne={}", $label, e, n),
+                                            Err(()) => format!("{} PANIC", $label),
+                                        },
+                                    );
+                                }
+                                _ => ctx.ln("eq", format!("{} skip", $label)),
+                            }
+                        };
+                    }
+                    eqk!(1, CommandLineTag);
+                    eqk!(2, BootLoaderNameTag);
+                    eqk!(3, ModuleTag);
+                    eqk!(4, BasicMemoryInfoTag);
+                    eqk!(6, MemoryMapTag);
+                    // VBEModeInfo.memory_model is enum-typed: compared only when both bytes are declared discriminants (F18)
+                    match (guard(|| b1.get_tag::<VBEInfoTag>()), guard(|| b2.get_tag::<VBEInfoTag>())) {
+                        (Ok(Some(x)), Ok(Some(y))) if vbe_mm_byte(x) <= 7 && vbe_mm_byte(y) <= 7 => {
+                            let r = guard(|| (x == y, x != y));
+                            ctx.ln(
+                                "eq",
+                                match r {
+                                    Ok((e, n)) => format!("7 VAL eq={} ne={}", e, n),
+                                    Err(()) => "7 PANIC".to_string(),
+                                },
+                            );
+                        }
+                        _ => ctx.ln("eq", "7 skip"),
+                    }
+                    eqk!(8, FramebufferTag);
+                    eqk!(9, ElfSectionsTag);
+                    eqk!(11, EFISdt32Tag);
+                    eqk!(12, EFISdt64Tag);
+                    eqk!(13, SmbiosTag);
+                    eqk!(14, RsdpV1Tag);
+                    eqk!(15, RsdpV2Tag);
+                    eqk!(17, EFIMemoryMapTag);
+                    eqk!(18, multiboot2::EFIBootServicesNotExitedTag);
+                    eqk!(19, EFIImageHandle32Tag);
+                    eqk!(20, EFIImageHandle64Tag);
+                    eqk!(21, ImageLoadPhysAddrTag);
+                }
+                _ => ctx.ln("eq", "noload"),
+            }
+        }
         "bigwalk" => {
             // n copies of one padded tag between the header and the end tag (n beyond 2^16): counts and positions only
             let (n, tag) = (a[0].n() as usize, a[1].b());
